@@ -33,9 +33,14 @@ RULE = ("Tag multisets of size <= 3 (quick) / <= 4 (thorough; size 5 with plain 
         "over {get(c), get(c, None), get(c, '1'), c in p, p[c], an earlier matcher query on c, late registration of a "
         "member provider / value that knows c} for c in {known, unknown category} and {items(), keys(), values(), "
         "print_active_tags(p, categories), print_active_tags(p)} applied to dict / ActiveTagValueProvider / two "
-        "CompositeActiveTagValueProvider line-ups before each of 8 final tag lists (fresh provider per final list); "
+        "CompositeActiveTagValueProvider line-ups before each of 8 final tag lists x 4 orders of the two final questions (fresh provider each); "
         "oracle = the formula on the CURRENT provider contents (a category is known iff some member knows it now). "
-        "Shipped providers: "
+        "Query order: should_run_with alone / should_exclude_with alone / run "
+        "then exclude / exclude then run, each on a fresh provider + matcher, must all follow the formula: all four in "
+        "the history, falsy, boolean sweeps and on 10 providers that look empty (None, {}, empty "
+        "ActiveTagValueProvider, composites with no / only empty members, composites knowing a category in the last / "
+        "only member, nested composite) x all tag multisets; run-first orders in the main sweep (value kinds str, lazy, "
+        "num_ge, first tag order) and for the shipped providers. Shipped providers: "
         "multisets <= 2 (<= 3) over ~100 tags (every category of behave.active_tag.python and .python_feature x "
         "prefixes x matching/non-matching/malformed values, versions below/equal/above the running interpreter) x "
         "{python dict, python_feature dict, ActiveTagValueProvider(python), Composite(python, python_feature)}, expected "
@@ -62,6 +67,7 @@ BOOL_ALPHABET = ("use.with_f=yes", "use.with_f=no", "not.with_f=yes", "not.with_
                  "not.with_f=maybe", "use.with_f=true", "not.with_f=off", "only.with_f=on", "use.with_f=")
 ASSIGNMENTS = [(a, b, cd) for a in ("1", "2", "3", None) for b in ("x", "y", None) for cd in ("1", "2", None)]
 KINDS = ("str", "vo", "lazy", "vo_lazy", "num_eq", "num_ge", "num_le", "ne", "contains", "bool_malformed")
+ORDER_KINDS = ("str", "lazy", "num_ge")       # value kinds for which the main sweep also varies the query order
 DEFAULT_PREFIXES = ("use", "not", "active", "not_active", "only")
 NEGATIVE = ("not", "not_active")
 PROBE = ("use.with_a=1", "not.with_b=x", "use.with_zz=1", "use.with_c.d=2", "foo")
@@ -173,6 +179,57 @@ def query(matcher, tags):
         return "EXC", type(ex).__name__
 
 
+# ---- query order -----------------------------------------------------------------------------------------
+# The verdict must not depend on WHICH of the two questions is asked first on a fresh matcher/provider: each order
+# below is evaluated on its own fresh provider + matcher.  ("exclude" alone is also what every sweep's primary
+# query starts with: the primary query is "exclude>run".)
+ORDERS = ("run", "exclude", "run>exclude", "exclude>run")
+CLASSNAME = {"dict": "dict", "atvp": "ActiveTagValueProvider", "comp": "CompositeActiveTagValueProvider",
+             "comp_rev": "CompositeActiveTagValueProvider", "comp_dicts": "CompositeActiveTagValueProvider"}
+
+
+def query_order(matcher, tags, order):
+    """-> (exclude or None, run or None) in the given call order, or ('EXC', name)"""
+    ex = rn = None
+    try:
+        for call in order.split(">"):
+            if call == "run":
+                rn = bool(matcher.should_run_with(list(tags)))
+            else:
+                ex = bool(matcher.should_exclude_with(list(tags)))
+    except Exception as e:
+        return "EXC", type(e).__name__
+    return ex, rn
+
+
+def order_faults(got, want, order):
+    """-> list of (call, position) that answered wrongly"""
+    if got[0] == "EXC":
+        return [("raises:%s" % got[1], "any")]
+    calls = order.split(">")
+    out = []
+    if got[0] is not None and got[0] != want:
+        out.append(("should_exclude_with", "first" if calls[0] == "exclude" else "second"))
+    if got[1] is not None and got[1] != (not want):
+        out.append(("should_run_with", "first" if calls[0] == "run" else "second"))
+    return out
+
+
+def judge_orders(v, obs, make, tags, want, what, provider, orders=("run", "run>exclude"), extra=None):
+    """every order on a fresh matcher; -> number of evaluations"""
+    for order in orders:
+        got = query_order(make(), tags, order)
+        obs.append(("order", order, got))
+        for call, position in order_faults(got, want, order):
+            d = {"subcheck": "query-order", "clause": "formula", "call": call, "position": position,
+                 "provider": provider,
+                 "direction": "runs-but-must-be-excluded" if want else "excluded-but-must-run"}
+            d.update(extra or {})
+            v.append((d, "%s: fresh provider and matcher, calls %s on tags %r -> (exclude, run) = %r, the documented "
+                         "logic says exclude=%s" % (what, order, list(tags), got, want)))
+    return len(orders)
+
+
 def model_provider(known):
     """the simplest provider that realises the reference predicates: the verdict of the matcher core on it
     tells a defect of the formula apart from a defect of a value object / provider class"""
@@ -281,6 +338,9 @@ def check_multiset(case):
                            extra={"kind": kind, "provider": family(pkind)} if got[0] == "EXC" else None)
                 if not ok and (kind, pkind) == ("str", "dict"):
                     base_failed = True
+                if ok and oi == 0 and kind in ORDER_KINDS:
+                    n += judge_orders(v, obs, lambda pkind=pkind, make=make: make(pkind), tags, want, what,
+                                      CLASSNAME[pkind])
                 if pkind == "comp" and got[0] != "EXC":
                     # the composite provider caches discovered categories: probe, then ask again
                     gp = query(m, PROBE)
@@ -384,6 +444,9 @@ def check_bool(case):
             got = query(make(pkind), tags)
             n += 1
             obs.append((pkind, oi, got))
+            if oi == 0 and got == (ref_exclude(tags, known), not ref_exclude(tags, known)):
+                n += judge_orders(v, obs, lambda pkind=pkind: make(pkind), tags, ref_exclude(tags, known),
+                                  "boolean category f, provider %s" % pkind, CLASSNAME[pkind], ORDERS[:3])
             judge(v, got, ref_exclude(tags, known), "category f %s, provider %s"
                   % ("absent" if cur is None else "= BoolValueObject(%s%r)" % ("lazy " if lazy else "", cur), pkind),
                   tags, lambda tags=tags, pkind=pkind: diagnose(tags, known, make, pkind, "bool", memo),
@@ -469,6 +532,9 @@ def check_falsy(case):
                       lambda tags=tags, known=known, make=make, pkind=pkind, label=label:
                       diagnose(tags, known, make, "dict" if pkind == "dict" else pkind, label, memo),
                       extra={"kind": label, "provider": family(pkind)} if got[0] == "EXC" else None)
+                if oi == 0 and got == (want, not want):
+                    n += judge_orders(v, obs, lambda pkind=pkind, make=make: make(pkind), tags, want, what,
+                                      CLASSNAME[pkind], ORDERS[:3])
                 if got[0] == want and g2 != got:
                     v.append(({"subcheck": "exclude", "clause": "changes-on-requery", "kind": label,
                                "provider": family(pkind)},
@@ -558,12 +624,12 @@ def h_apply(provider, matcher, op, known):
     raise ValueError(op)
 
 
-def h_run(pkind, history, final):
+def h_run(pkind, history, final, order="exclude>run"):
     provider = h_build(pkind)
     matcher = TM.ActiveTagMatcher(provider)
     known = {"a": (lambda tv: tv == "1"), "b": (lambda tv: tv == "x")}
     trace = [h_apply(provider, matcher, H_OPS[i], known) for i in history]
-    return query(matcher, final), ref_exclude(final, known), known, trace
+    return query_order(matcher, final, order), ref_exclude(final, known), known, trace
 
 
 def h_opclass(op):
@@ -576,49 +642,98 @@ def h_opclass(op):
 
 
 def check_history(case):
-    """one (provider kind, sequence of earlier operations): every final tag list, fresh provider each time"""
+    """one (provider kind, sequence of earlier operations): every final tag list x every order of the two final
+    questions, fresh provider each time"""
     pkind, history = case
     v, obs, n = [], [], 0
     for final in H_FINALS:
-        got, want, known, trace = h_run(pkind, history, final)
-        n += 1
-        obs.append((final, got, trace))
-        if got[0] == "EXC" or got[0] != want or got[1] != (not got[0]):
+        for order in ORDERS:
+            got, want, known, trace = h_run(pkind, history, final, order)
+            n += 1
+            obs.append((final, order, got, trace))
+            faults = order_faults(got, want, order)
+            if not faults:
+                continue
             # minimal trigger class: shortest sub-sequence of the history that still gives a wrong answer
             sub = history
             found = False
             for k in range(0, len(history)):
                 for idx in itertools.combinations(range(len(history)), k):
                     cand = tuple(history[i] for i in idx)
-                    g, w, _, _ = h_run(pkind, cand, final)
-                    if g[0] == "EXC" or g[0] != w or g[1] != (not g[0]):
+                    g, w, _, _ = h_run(pkind, cand, final, order)
+                    if order_faults(g, w, order):
                         sub, found = cand, True
                         break
                 if found:
                     break
-            g, w, _, _ = h_run(pkind, sub, final)
+            g, w, _, _ = h_run(pkind, sub, final, order)
             status = []
             for t in final:         # which tag is decided wrongly: ask about each tag alone after the same history
-                g1, w1, _, _ = h_run(pkind, sub, (t,))
-                if g1[0] == "EXC" or g1[0] != w1:
+                g1, w1, _, _ = h_run(pkind, sub, (t,), order)
+                if order_faults(g1, w1, order):
                     c = parse_active(t, DEFAULT_PREFIXES, "=")[1]
                     added = any(H_OPS[i] == ("add", c) for i in sub)
                     status.append("added-later" if added else ("known" if c in ("a", "b") else "unknown"))
+            call, position = order_faults(g, w, order)[0]
             d = {"subcheck": "history", "provider": H_CLASSNAME[pkind],
                  "history": ">".join(h_opclass(H_OPS[i]) for i in sub) or "none",
                  "category": "+".join(sorted(set(status))) or "combination"}
             if g[0] == "EXC":
                 d["clause"] = "raises"
                 d["exc"] = g[1]
-            elif g[0] != w:
-                d["clause"] = "verdict-depends-on-earlier-operations" if sub else "formula"
             else:
-                d["clause"] = "should_run_with-is-not-negation"
-            v.append((d, "provider %s after %s: tags %r -> should_exclude_with/should_run_with = %r, the documented logic "
-                         "on the current provider contents says exclude=%s (minimal history: %s)"
-                      % (pkind, [H_OPS[i] for i in history], list(final), got, want, [H_OPS[i] for i in sub])))
+                d["clause"] = "verdict-depends-on-earlier-operations" if sub else "formula"
+                # the plain question (should_exclude_with asked first) is the default trigger; name anything else
+                if (call, position) != ("should_exclude_with", "first"):
+                    g0, w0, _, _ = h_run(pkind, sub, final, "exclude>run")
+                    if not any(c == "should_exclude_with" for c, _ in order_faults(g0, w0, "exclude>run")):
+                        d["call"], d["position"] = call, position
+            v.append((d, "provider %s after %s, then calls %s: tags %r -> (exclude, run) = %r, the documented logic on "
+                         "the current provider contents says exclude=%s (minimal history: %s)"
+                      % (pkind, [H_OPS[i] for i in history], order, list(final), got, want, [H_OPS[i] for i in sub])))
     nt = ("history", case) if history else None
-    return {"v": v, "nt": nt, "out": ("history", tuple(o[1] for o in obs[:3])), "dg": obs, "n": n}
+    return {"v": v, "nt": nt, "out": ("history", tuple(o[2] for o in obs[:6])), "dg": obs, "n": n}
+
+
+# ---- providers that look empty ---------------------------------------------------------------------------
+# Truthiness / len() of a provider says nothing about what it knows: a composite provider is a UserDict whose
+# own data is only the lookup cache.  Every tag multiset x every order of the two questions, fresh objects each time.
+def corner_providers():
+    A = TM.ActiveTagValueProvider
+    C = TM.CompositeActiveTagValueProvider
+    one = lambda tv: tv == "1"      # noqa: E731
+    return (
+        ("None", lambda: None, {}),
+        ("empty-dict", lambda: {}, {}),
+        ("empty-ActiveTagValueProvider", lambda: A({}), {}),
+        ("ActiveTagValueProvider()", lambda: A(), {}),
+        ("composite-without-members", lambda: C([]), {}),
+        ("composite()", lambda: C(), {}),
+        ("composite-of-empty-members", lambda: C([{}, A({})]), {}),
+        ("composite-known-in-last-member", lambda: C([{}, A({}), {"a": "1"}]), {"a": one}),
+        ("composite-known-in-only-member", lambda: C([{"a": "1"}]), {"a": one}),
+        ("composite-of-composite", lambda: C([C([{"a": "1"}])]), {"a": one}),
+    )
+
+
+def check_corner(idxs):
+    tags = tuple(ALPHABET[i] for i in idxs)
+    v, obs, n = [], [], 0
+    for name, mkp, known in corner_providers():
+        want = ref_exclude(tags, known)
+        for order in ORDERS:
+            got = query_order(TM.ActiveTagMatcher(mkp()), tags, order)
+            n += 1
+            obs.append((name, order, got))
+            for call, position in order_faults(got, want, order):
+                d = {"subcheck": "query-order", "clause": "formula", "call": call, "position": position,
+                     "provider": ("CompositeActiveTagValueProvider" if name.startswith("composite") else
+                                  "ActiveTagValueProvider" if "ActiveTagValueProvider" in name else "dict"),
+                     "direction": "runs-but-must-be-excluded" if want else "excluded-but-must-run"}
+                v.append((d, "provider %s (fresh), calls %s on tags %r -> (exclude, run) = %r, the documented logic "
+                             "says exclude=%s" % (name, order, list(tags), got, want)))
+    nt = ("corner", idxs) if any(parse_active(t, DEFAULT_PREFIXES, "=") for t in tags) else None
+    return {"v": v, "nt": nt, "out": ("corner", tuple(o[2] for o in obs[-8:])), "dg": obs, "n": n}
 
 
 # ---- shipped providers ---------------------------------------------------------------------------
@@ -748,6 +863,9 @@ def check_shipped(idxs):
                             d["kind"] = "shipped:%s" % c
                             break
                 return d
+            if oi == 0 and got == (want, not want):
+                n += judge_orders(v, obs, lambda mkp=mkp: TM.ActiveTagMatcher(mkp()), tags, want,
+                                  "shipped provider %s" % cname, CLASSNAME[pkind])
             judge(v, got, want, "shipped provider %s on Python %s / %s"
                   % (cname, ".".join(map(str, sys.version_info[:3])), sys.platform), tags, diag,
                   extra={"kind": "shipped", "provider": family(pkind)} if got[0] == "EXC" else None)
@@ -770,6 +888,7 @@ def run(ctx):
     ssize = 2 if ctx.quick else 3
     ntags = len(shipped_tags())
     ctx.bounds = {"multiset_size": size, "multiset_size_plain_strings": size if ctx.quick else 5,
+                  "query_orders": list(ORDERS), "query_order_value_kinds_main_sweep": list(ORDER_KINDS),
                   "history_length": 2 if ctx.quick else 3, "history_operations": ["%s(%s)" % o for o in H_OPS],
                   "falsy_current_values": [n for n, _ in FALSY_VALUES], "falsy_alphabet": list(FALSY_ALPHABET), "alphabet": list(ALPHABET), "assignments": len(ASSIGNMENTS),
                   "value_kinds": list(KINDS), "providers": ["dict", "ActiveTagValueProvider", "Composite(2)"],
@@ -792,6 +911,7 @@ def run(ctx):
     ctx.sweep(check_history, ((pk, h) for k in range(0, hlen + 1) for h in itertools.product(range(len(H_OPS)), repeat=k)
                               for pk in H_PROVIDERS),
               chunk=32, name="provider histories before the matcher query")
+    ctx.sweep(check_corner, multisets(len(ALPHABET), size), chunk=16, name="providers that look empty x query order")
     ctx.sweep(check_shipped, multisets(ntags, ssize), chunk=64, name="shipped providers")
 
     py, pf = shipped_reference()
@@ -802,6 +922,10 @@ def run(ctx):
     ctx.guard(sum(1 for k in ctx.nt if k[0] == "main") > 5000,
               "at least 5000 distinct (multiset, assignment) with an active tag of a known category")
     ctx.guard(sum(1 for k in ctx.nt if k[0] == "bool") > 500, "at least 500 non-trivial boolean cases")
+    ctx.guard(sum(1 for k in ctx.nt if k[0] == "corner") > 500, "at least 500 tag multisets on empty-looking providers")
+    co = set(x for k in ctx.outcomes if k[0] == "corner" for x in k[1])
+    ctx.guard((True, False) in co and (None, False) in co and (None, True) in co,
+              "empty-looking providers: exclusion observed, and should_run_with asked alone gave both answers")
     ctx.guard(sum(1 for k in ctx.nt if k[0] == "history") > 1000, "at least 1000 non-empty provider histories")
     ctx.guard(sum(1 for k in ctx.nt if k[0] == "falsy") > 2000, "at least 2000 non-trivial None/falsy-value cases")
     fo = set(k[1:] for k in ctx.outcomes if k[0] == "falsy")
